@@ -266,7 +266,7 @@ var c08Content = registerSpace(&e1Space{
 // Sequences of <=3 items (yield of a parameter-less / parameterised wrapper with and without content, in-place
 // definitions with and without default content, yield content) at the top level and inside the body of an
 // outer block that was itself yielded with content.
-const c08NSib = 8
+const c08NSib = 9
 
 func c08Sib(k, id int) []rj.Stmt {
 	c := rj.T(fmt.Sprintf("c%d", id))
@@ -285,6 +285,8 @@ func c08Sib(k, id int) []rj.Stmt {
 		return []rj.Stmt{&rj.BlockDef{Name: fmt.Sprintf("e%d", id), Body: []rj.Stmt{rj.T("(e:"), &rj.YieldContent{}, rj.T(")")}}}
 	case 6:
 		return []rj.Stmt{rj.T("yc:"), &rj.YieldContent{}}
+	case 8: // a content that is given but empty: it is still the caller's content (nothing), not the enclosing one
+		return []rj.Stmt{&rj.Yield{Name: "box", HasContent: true, Content: []rj.Stmt{}}}
 	default: // a content body that itself shows the content pending where the yield stands
 		return []rj.Stmt{&rj.Yield{Name: "box", HasContent: true, Content: []rj.Stmt{rj.T("<"), &rj.YieldContent{}, rj.T(">")}}}
 	}
@@ -374,7 +376,7 @@ var c08DefSite = registerSpace(&e1Space{
 })
 
 func C08(r *core.Run) map[string]interface{} {
-	r.Rule = "all template sets with an extends chain of 1-3 and 0-2 imports where every non-root template defines any subset of {A,B} (plain, conditional, nested placement), x 8 positions of the yield/definition site in the root; parameter lists of 3 with every default pattern x every ordered subset of named arguments x 3 block homes; content nesting/recursion/caller-scope variants; definition sites with parameters overridden along the extends chain by definitions with other parameter lists and defaults; sibling sequences (<=3 of 8 items: content that shows the enclosing pending content, wrappers with/without parameters and content, in-place definitions with/without default content, yield content) at top level and inside an outer block yielded with content; distinct = distinct reference outputs"
+	r.Rule = "all template sets with an extends chain of 1-3 and 0-2 imports where every non-root template defines any subset of {A,B} (plain, conditional, nested placement), x 8 positions of the yield/definition site in the root; parameter lists of 3 with every default pattern x every ordered subset of named arguments x 3 block homes; content nesting/recursion/caller-scope variants; definition sites with parameters overridden along the extends chain by definitions with other parameter lists and defaults; sibling sequences (<=3 of 9 items: an empty content body, content that shows the enclosing pending content, wrappers with/without parameters and content, in-place definitions with/without default content, yield content) at top level and inside an outer block yielded with content; distinct = distinct reference outputs"
 	runSpace(r, c08Sets)
 	runSpace(r, c08Params)
 	runSpace(r, c08Content)
